@@ -14,6 +14,8 @@ Tensor and scalar arithmetic becomes a term over the exact rationals of Base/FL.
   gen_ql_xq        (bits : Z) (kn sym : bool) (qs x : rat) : rat        the quantized value xq of __call__
   gen_ql_res       (f x xq : rat) : rat                                 the returned mixture
   gen_ql_max / gen_ql_min (bits : Z) (kn sym : bool) (qs : rat) : rat   the reporters
+  gen_ql_auto_scale (bits : Z) (kn sym : bool) (dmax_abs dmax : rat) : rat   _get_quantization_scale_from_max_data (alpha = "auto"),
+                                                                        dmax_abs / dmax = the largest magnitude / element of the group
 
 Link/LinLink.v proves them equal to the model of Quant/Fixed.v (ql_lo, ql_hi, ql_se, ql_code) for every configuration with at
 least one unsigned bit, every positive scale and every input; Quant/LinearThm.v's theorems then speak about the code."""
@@ -123,6 +125,17 @@ class Interp:
         if kw == {"use_stochastic_rounding": "self.use_stochastic_rounding", "precision": "1.0"}:
           return ("r", f"(rofZ (rround {to_r(self.val(n.args[0]))}))")
         raise Fail(f"line {line}: rounding options {kw}")
+      if src == "K.max(tf.math.abs(x), axis=axis, keepdims=True)" and self.env.get("axis") == ("opaque", "axis") and self.env.get("x") == ("r", "x"):
+        return ("r", "dmax_abs")                       # the largest magnitude of the scale group
+      if src == "K.max(x, axis=axis, keepdims=True)" and self.env.get("axis") == ("opaque", "axis") and self.env.get("x") == ("r", "x"):
+        return ("r", "dmax")                           # the largest element of the scale group
+      if src == "_get_scaling_axis(self.scale_axis, tf.rank(x))":
+        return ("opaque", "axis")
+      if f == "tf.math.maximum" and len(n.args) == 2:
+        a, b = self.val(n.args[0]), self.val(n.args[1])
+        return ("r", f"(rmax {to_r(a, line)} {to_r(b, line)})")
+      if src == "K.epsilon()":
+        return ("r", "(1, 10000000)")
       if f == "self.get_clip_bounds" and not n.args:
         return self.call_method("get_clip_bounds")
       if f == "self._scale_clip_and_round" and len(n.args) == 2:
@@ -141,7 +154,7 @@ class Interp:
       if k in e1 and k in e2:
         if e1[k] == e2[k]:
           out[k] = e1[k]
-        elif e1[k][0] == "pair" or e2[k][0] == "pair":
+        elif e1[k][0] in ("pair", "opaque") or e2[k][0] in ("pair", "opaque"):
           raise Fail(f"line {line}: tuple assigned under a condition")
         else:
           out[k] = ("r", f"(if {c} then {to_r(e1[k])} else {to_r(e2[k])})")
@@ -236,6 +249,10 @@ def translate():
   if ret is None or ast.unparse(it.method("__call__").body[-1]) != "return res":
     raise Fail("__call__ does not return res")
   out["res"] = itm.val(ret.value)
+  fnm = it.method("_get_quantization_scale_from_max_data")
+  if [a.arg for a in fnm.args.args] != ["self", "x"]:
+    raise Fail("_get_quantization_scale_from_max_data signature")
+  out["auto"] = it.call_method("_get_quantization_scale_from_max_data", {"x": ("r", "x")})
   out["max"] = it.call_method("max")
   out["min"] = it.call_method("min")
   for k, v in out.items():
@@ -254,6 +271,7 @@ SIGS = [("gen_ql_sign", "(bits : Z) (kn : bool) : bool", "sign", "false"),
         ("gen_ql_scaled", "(bits : Z) (kn sym : bool) (qs x : rat) : rat", "scaled", "(1, 3)"),
         ("gen_ql_xq", "(bits : Z) (kn sym : bool) (qs x : rat) : rat", "xq", "(1, 3)"),
         ("gen_ql_res", "(f x xq : rat) : rat", "res", "(1, 3)"),
+        ("gen_ql_auto_scale", "(bits : Z) (kn sym : bool) (dmax_abs dmax : rat) : rat", "auto", "(0, 1)"),
         ("gen_ql_max", "(bits : Z) (kn sym : bool) (qs : rat) : rat", "max", "(0, 1)"),
         ("gen_ql_min", "(bits : Z) (kn sym : bool) (qs : rat) : rat", "min", "(0, 1)")]
 
